@@ -116,27 +116,30 @@ Definition expr_values (root pos : value) (e : expr) : res (list pvalue) :=
   | _ => Panic
   end.
 
-Fixpoint find_positions (fuel : nat) (root : value) (current : option value) (ps : list path) : res (list value) :=
-  match fuel with O => Err EFuel | S f =>
+(* find_positions: the start position, then the frontier walk; `fe` is filter_expr at this root *)
+Definition find_positions_with (fe : value -> expr -> res bool) (root : value) (current : option value) (ps : list path)
+  : res (list value) :=
   do start <- match ps with
               | PCurrent :: _ => match current with Some c => Ok c | None => Panic end
               | _ => Ok root end;
-  walk (fun pos e => filter_expr f root pos e) ps [start]
-  end
-with filter_expr (fuel : nat) (root pos : value) (e : expr) : res bool :=
-  match fuel with O => Err EFuel | S f =>
+  walk fe ps [start].
+(* filter_expr / eval_exists: structural recursion on the expression (an `exists(paths)` walks paths whose filters are
+   sub-expressions); there is no fuel: every path, however long or deeply nested, is evaluated in full *)
+Fixpoint filter_expr (root pos : value) (e : expr) {struct e} : res bool :=
   match e with
-  | EBin OOr l r => do a <- filter_expr f root pos l; do b <- filter_expr f root pos r; Ok (a || b)
-  | EBin OAnd l r => do a <- filter_expr f root pos l; do b <- filter_expr f root pos r; Ok (a && b)
+  | EBin OOr l r => do a <- filter_expr root pos l; do b <- filter_expr root pos r; Ok (a || b)
+  | EBin OAnd l r => do a <- filter_expr root pos l; do b <- filter_expr root pos r; Ok (a && b)
   | EBin op l r =>
       do a <- expr_values root pos l;
       do b <- expr_values root pos r;
       exists_res (fun x => exists_res (fun y => compare_value op x y) b) a
-  | EExists ps => do fr <- find_positions f root (Some pos) ps; Ok (match fr with [] => false | _ => true end)
+  | EExists ps =>
+      do fr <- find_positions_with (fun pos' e' => filter_expr root pos' e') root (Some pos) ps;
+      Ok (match fr with [] => false | _ => true end)
   | _ => Err EOther           (* after the fix: Err(InvalidJsonPath); was todo!() *)
-  end end.
-
-Definition PATH_FUEL : nat := 64.
+  end.
+Definition find_positions (root : value) (current : option value) (ps : list path) : res (list value) :=
+  find_positions_with (fun pos e => filter_expr root pos e) root current ps.
 
 Inductive mode := MFirst | MArray | MAll | MMixed.
 
@@ -150,7 +153,7 @@ Definition build_array_items (buf : list N) (items : list value) : list N * list
   let buf' := buf ++ enc (VArr items) in (buf', [lenN buf']).
 
 Definition select_t (root : value) (ps : list path) (m : mode) (buf : list N) : res (list N * list N) :=
-  do items <- find_positions PATH_FUEL root None ps;
+  do items <- find_positions root None ps;
   if is_predicate ps then
     Ok (buf ++ enc (VBool (match items with [] => false | _ => true end)), [])
   else
@@ -162,7 +165,7 @@ Definition select_t (root : value) (ps : list path) (m : mode) (buf : list N) : 
         end).
 Definition exists_t (root : value) (ps : list path) : res bool :=
   if is_predicate ps then Ok true
-  else do items <- find_positions PATH_FUEL root None ps; Ok (match items with [] => false | _ => true end).
+  else do items <- find_positions root None ps; Ok (match items with [] => false | _ => true end).
 Definition predicate_match_t (root : value) (ps : list path) : res bool :=
   if negb (is_predicate ps) then Err EInvalidPredicate
-  else do items <- find_positions PATH_FUEL root None ps; Ok (match items with [] => false | _ => true end).
+  else do items <- find_positions root None ps; Ok (match items with [] => false | _ => true end).
